@@ -13,6 +13,7 @@
 package main
 
 import (
+	"strconv"
 	"bytes"
 	"encoding/base64"
 	"encoding/hex"
@@ -33,6 +34,7 @@ type hcScript struct {
 	status int
 	body   []byte
 	trunc  bool
+	over   int64
 }
 
 var (
@@ -62,7 +64,7 @@ func hcInit() {
 				if err != nil {
 					return
 				}
-				fmt.Fprintf(buf, "HTTP/1.1 %d X\r\nContent-Length: %d\r\nConnection: close\r\n\r\n", s.status, len(s.body)+10)
+				fmt.Fprintf(buf, "HTTP/1.1 %d X\r\nContent-Length: %d\r\nConnection: close\r\n\r\n", s.status, int64(len(s.body))+s.over)
 				buf.Write(s.body)
 				buf.Flush()
 				conn.Close()
@@ -116,7 +118,11 @@ func handleHTTPIO(q req) resp {
 	case "hc_resp":
 		hcInit()
 		hcMu.Lock()
-		hcCur = hcScript{status: q.Status, body: body, trunc: q.Trunc}
+		over := int64(10)
+		if v, err := strconv.ParseInt(q.Over, 10, 64); err == nil && v > 0 {
+			over = v
+		}
+		hcCur = hcScript{status: q.Status, body: body, trunc: q.Trunc, over: over}
 		hcMu.Unlock()
 		type cres struct {
 			code    int
